@@ -15,22 +15,22 @@ CHECKS = {
  'C03': ('model_checking', 'At every successful commit transition of the explored histories a fresh replica opened on a byte copy of the storage must expose the same view and block graph; plus an exhaustive content sweep (all strings over a brace/quote/backslash alphabet up to a length bound in 6 positions, a number family, two-commit cases) through update-commit-reopen.', TRUST + 'Foreign items melded but not yet refreshed are excluded from the reopened copy (outside the statement).', BFS + ' + exhaustive enumeration of a content alphabet', 'DESIGN.md §4 C03', 'H,P'),
  'C04': ('model_checking', 'In every distinct state and for every document of the menu: update then read must equal an independently computed expectation exactly (weaker multiset clause while an array descriptor is in conflict); a second identical update changes nothing; commit with nothing staged writes nothing.', TRUST + 'Well-formed documents: flattened-array elements carry unique string _id not starting with ^. Two input classes are recorded as known findings.', BFS + ' with a reference function for the expected document', 'DESIGN.md §4 C04', 'H'),
  'C08': ('model_checking',
-         'Explicit-state breadth-first exploration of operation histories over real replicas (2-3 replicas, small document menu); in every distinct state every operation of the full API alphabet is attempted under catch_unwind and a heartbeat watchdog, for several rayon pool sizes; plus engine S: every thread schedule (preemption bound 1/2, 2-3 workers, two RwLock admission policies) of single operations in prepared states must finish without deadlock or panic. Coverage statement: no operation panics or fails to return in any state reachable within the stated depth, under any schedule within the stated preemption bound.',
+         'Explicit-state breadth-first exploration of operation histories over real replicas (2-3 replicas, small document menu); in every distinct state every operation of the full API alphabet is attempted under catch_unwind and a heartbeat watchdog, for several rayon pool sizes; plus engine S: every thread schedule (preemption bound 1/2, 2-3 workers, two RwLock admission policies) of single operations in prepared states must finish without deadlock or panic. Coverage statement: no operation panics or fails to return in any state reachable within the stated depth, under any schedule within the stated preemption bound. Three reference-cycle histories (objects moved below each other concurrently) are run in a child process; an abnormal exit of the child - or a SIGABRT/SIGSEGV death of the in-process exploration - is reported as the violation.',
          'Trusted: the watchdog threshold (10 s without progress = did not return); engine S models the worker pool as a queue + W workers and trusts rayon internals and std lock implementations.',
          BFS + ' + preemption-bounded exhaustive schedule exploration (shuttle runtime, custom DFS scheduler)', 'DESIGN.md §3.1, §3.5, §4 C08', 'H,S'),
  'C05': ('model_checking', '(P) every subset (up to 4/5 entries) of a universe of system-generated revisions inserted in every order through add() and through unvalidated_add+validate under permuted iteration orders, against an independent leaf/winner reference; (H) in every explored replica state every object\'s winner, conflict set and in_conflict membership equals the same reference computed from the tree dump.', TRUST, 'exhaustive enumeration of trees x insertion orders + ' + BFS, 'DESIGN.md §4 C05', 'P,H'),
  'C06': ('model_checking', '(P) merge_arrays on all ordered pairs of duplicate-free sequences (k ids, length <= L) and all folded triples against set/order oracles; (H) in every explored state of concurrent array-edit histories the read arrays are checked against every live leaf version rebuilt through the accessor (membership, uniqueness across arrays, winner order, agreeing versions\' order, no deleted element).', TRUST, 'exhaustive enumeration of sequence pairs/triples + ' + BFS, 'DESIGN.md §4 C06', 'P,H'),
- 'C07': ('model_checking', 'In every explored state with conflicts: every object in conflict x every live leaf is resolved; conflict set, value / absence, unchanged document when the winner is chosen, array membership and order are checked; then commit + sync propagation and every pair of independent resolutions to a cross-sync fix-point.', TRUST, BFS + ' with exhaustive choice enumeration per state', 'DESIGN.md §4 C07', 'H'),
+ 'C07': ('model_checking', 'In every explored state with conflicts: every object in conflict x every live leaf is resolved; conflict set, value / absence, unchanged document when the winner is chosen, array membership and order are checked; then commit + sync propagation and every pair of independent resolutions to a cross-sync fix-point. State invariant: with nothing staged and everything applied the live conflict set equals that of a freshly opened replica.', TRUST, BFS + ' with exhaustive choice enumeration per state', 'DESIGN.md §4 C07', 'H'),
  'C09': ('fault_enumeration', 'For every distinct staged replica state: every prefix of commit\'s write log as a crash point, every single write failure and every pair (failure, failure during retry); for every (target, source) state pair: every prefix and every subset (bounded) of meld\'s writes, every single write failure followed by a retry. Oracles: reopen == state of the causally complete sub-store, commit crash states are old-or-new, pack-before-block monitor, staged changes and document intact after a failed commit, retry == uninterrupted twin.', TRUST + 'Item writes are atomic (as the property states).', 'exhaustive crash-point / write-failure enumeration over histories found by ' + BFS, 'DESIGN.md §4 C09', 'H,F'),
  'C10': ('fault_enumeration', 'For storages taken from explored histories: every single-bit flip and every truncation of every item, every subset of items deleted, and a junk-injection menu; each damaged storage is opened and (sampled positions, all injections) presented to a live replica\'s refresh; accepted: an error, or exactly the state of the intact causally complete subset (independent reference); panics are violations.', TRUST, 'exhaustive single-fault corruption enumeration against a reference model', 'DESIGN.md §4 C10', 'F'),
  'C12': ('model_checking', 'In every explored state: read before / after each maintenance operation (commit incl. automatic array-conflict resolution, full snapshot, meld without refresh, refresh / reload when nothing is unapplied) and their compositions.', TRUST, BFS + ' with a differential read oracle', 'DESIGN.md §4 C12', 'H'),
  'C14': ('model_checking', 'Every recorded head set of every replica is revisited from every later explored state: reload_until / new_until must reproduce the recorded view, tree dumps and every revision\'s value and parent; reload returns to the latest state; repeated for cache capacities 1 and 16.', TRUST, BFS + ' with recorded-state differential oracle', 'DESIGN.md §4 C14', 'H'),
  'C15': ('model_checking', 'In every explored state with staged changes: unstage == last clean state (view + full tree dumps), export/discard/replay == identity, commit after the round trip == direct commit, reload/refresh/time travel refuse and change nothing; after every commit nothing is staged.', TRUST, BFS + ' with recorded-state differential oracle', 'DESIGN.md §4 C15', 'H'),
  'C16': ('exploration', '(a) all ordered pairs of sequences with repetition (k symbols, length <= 6) through make_diff_patch/apply_diff_patch; (b) every chain up to length 3/4 over the 16 duplicate-free arrays on 3 ids plus key-absent, through update/commit/read/reopen and per-version reconstruction, for 6 cache-capacity configurations.', TRUST, 'exhaustive enumeration of sequence pairs and update chains on the real implementation + BFS over multi-replica histories with ground-truth versions + preemption-bounded schedule exploration of the cache shortcut', 'DESIGN.md §4 C16', 'P,H,S'),
- 'C17': ('model_checking', 'Engine A: BFS over write/reopen sequences (abstract-state deduplicated) on memory, directory, SQLite file, SQLite in-memory x {plain, Deflate, Brotli}; after every step whole reads, every small slice, boundary slices and listings are compared with a first-write-wins map; then fixed replica histories over every backend compared with the in-memory baseline.', 'Solid backend excluded (network). Keys ASCII, >= 2 chars; ranged reads non-empty and in range.', 'explicit-state BFS of the real adapters against a reference map', 'DESIGN.md §4 C17', 'A'),
+ 'C17': ('model_checking', 'Engine A: BFS over write/reopen sequences (abstract-state deduplicated) on memory, directory, SQLite file, SQLite in-memory x {plain, Deflate, Brotli}; after every step whole reads, every small slice, boundary slices and listings are compared with a first-write-wins map; then fixed replica histories over every backend compared with the in-memory baseline. Construction routes: constructor, URL factory, alternating, relative URL (SQLite), URL with a localhost authority; short-key pass (1-3 character and multi-byte keys).', 'Solid backend excluded (network). Keys ASCII, >= 2 chars; ranged reads non-empty and in range.', 'explicit-state BFS of the real adapters against a reference map', 'DESIGN.md §4 C17', 'A'),
  'C18': ('model_checking', 'Every distinct state of the two-replica scenarios is re-evaluated under rayon pool sizes 2..16, reversed/rotated hash-iteration orders, reversed/rotated listing orders, cache capacities {1,2,16}^2, and every permutation at every single iteration site of 2..4 elements (short histories); views must equal the baseline.', TRUST + 'Real rayon timing is not enumerated here.', BFS + ' + exhaustive configuration sweep per state + preemption-bounded exhaustive schedule exploration', 'DESIGN.md §4 C18', 'H,S'),
- 'C19': ('exploration', 'All revisions reachable through the system\'s constructors to a depth bound: purity, print/parse round trip, loader reconstruction, and all ordered triples for the total-order axioms; plus every ordered pair of menu documents applied independently on two replicas (same identifiers, no conflict after sync).', TRUST, 'exhaustive enumeration of a constructor-closed revision universe (all triples)', 'DESIGN.md §4 C19', 'P,H'),
- 'C11': ('model_checking', 'Storage monitor evaluated on every replica after every transition: content-addressed names (sha256 of bytes, block index = 1 + highest parent index parsed from raw bytes), append-only, byte-identical across replicas, no conflicting write ever issued; plus a commit-metadata sweep melded between replicas.', TRUST, BFS + ' with a storage invariant on every transition', 'DESIGN.md §4 C11', 'H'),
+ 'C19': ('exploration', 'All revisions reachable through the system\'s constructors to a depth bound: purity, print/parse round trip, loader reconstruction, and all ordered triples for the total-order axioms; plus every ordered pair of menu documents applied independently on two replicas (same identifiers, no conflict after sync). Engine H: in every state of conflict / resolution / full-snapshot / time-travel histories every revision of every tree is recomputed from its parent and digest.', TRUST, 'exhaustive enumeration of a constructor-closed revision universe (all triples)', 'DESIGN.md §4 C19', 'P,H'),
+ 'C11': ('model_checking', 'Storage monitor evaluated on every replica after every transition: content-addressed names (sha256 of bytes, block index = 1 + highest parent index parsed from raw bytes), append-only, byte-identical across replicas, no conflicting write ever issued; plus a commit-metadata sweep melded between replicas. Misnamed-block clause: a source opened on storage holding a valid block under a wrong index is melded into an empty replica - only well-named items may be written.', TRUST, BFS + ' with a storage invariant on every transition', 'DESIGN.md §4 C11', 'H'),
  'C13': ('model_checking', 'At every commit transition: one block whose raw parents are the previous heads, index above every parent, sole head afterwards; in every state: applied blocks ancestor-closed and acyclic, heads == applied blocks not named as parent, get_delta == independently parsed raw file.', TRUST, BFS + ' with a graph invariant on every state and transition', 'DESIGN.md §4 C13', 'H'),
 }
 
